@@ -222,17 +222,62 @@ theorem verdict_is_source (P : Params α) (s : Solved α) (rank : Nat) (hrank : 
 
 /-! ### lookup of the relations -/
 
-/-- `Path(constraints).is_file()` for the packaged path: the package ships a file of that name; `Path(system).is_file()`:
-    the argument names a readable regular file; `Path(system).exists()`: file or directory -/
+/-- `Path(s).name != s`: the string has a directory part (`./cubic`, `sub/cubic`, `/abs/cubic`); a bare name (`cubic`) has
+    none.  (POSIX separators; the one string without `/` for which pathlib says otherwise is `"."`, a directory, for which
+    no probe of the test is true either way.) -/
+def hasDirPart (s : String) : Bool := s.toList.contains '/'
+
+def splitSlash : List Char → List (List Char)
+  | [] => [[]]
+  | c :: cs =>
+    match splitSlash cs with
+    | [] => [[]]
+    | w :: ws => if c == '/' then [] :: w :: ws else (c :: w) :: ws
+
+/-- `Path("constraints") / s` for a relative `s`: pathlib drops empty and `.` components (and keeps `..`) -/
+def normRel (s : String) : String :=
+  String.intercalate "/" (((splitSlash s.toList).filter fun w => w ≠ [] ∧ w ≠ ['.']).map String.ofList)
+
+def okB {ε β : Type} : Except ε β → Bool
+  | .ok _ => true
+  | .error _ => false
+
+/-- `Path(get_data_fname(str(Path("constraints") / system))).is_file()` as the file system answers it: for a bare name, the
+    package ships a file of that name; for a relative path, the package ships the file the collapsed path names
+    (`constraints/./cubic` IS `constraints/cubic`); for an absolute path, `Path("constraints") / system` is `system` itself. -/
+def packagedProbe (env : Env) (sys : String) : Bool :=
+  if hasDirPart sys then
+    (if sys.toList.head? = some '/' then (env.userFile sys).isSome else okB (packaged (normRel sys)))
+  else okB (packaged sys)
+
+/-- `Path(constraints).is_file()` for the packaged path; `Path(system).is_file()`: the argument names a readable regular
+    file; `Path(system).exists()`: file or directory; `Path(system).name != system` -/
 def lookupEnv (env : Env) (sys : String) : BEnv α where
   probe := fun
-    | .isFile, .packaged => some (match packaged sys with | .ok _ => true | .error _ => false)
+    | .isFile, .packaged => some (packagedProbe env sys)
     | .isFile, .system => some (env.userFile sys).isSome
     | .pathExists, .system => some (env.pathExists sys)
+    | .hasDirPart, .system => some (hasDirPart sys)
     | _, _ => none
 
-/-- **lookup precedence is the source's test**: when the extracted test holds `constraints = system` (the user's file is
-    opened), otherwise the packaged path is opened (`FileNotFoundError` when there is none) -/
+theorem packaged_names_bare : ∀ p ∈ Generated.constraintSystems, hasDirPart p.1 = false := by decide +kernel
+
+/-- a packaged system name is a bare name -/
+theorem packaged_ok_bare {sys : String} {rows : Rows} (h : packaged sys = .ok rows) : hasDirPart sys = false := by
+  unfold packaged at h
+  cases hf : Generated.constraintSystems.find? (fun p => p.1 == sys) with
+  | none => simp [hf] at h
+  | some p =>
+    have hm := List.mem_of_find?_eq_some hf
+    have hp := List.find?_some hf
+    have : p.1 = sys := by simpa using hp
+    rw [← this]; exact packaged_names_bare p hm
+
+/-- **lookup precedence is the source's test** (fix of the `./cubic` finding): when the extracted test
+    `(Path(system).name != system or not Path(packaged).is_file()) and Path(system).is_file()` holds, `constraints = system`
+    (the user's file is opened), otherwise the packaged path is opened.  The test before the fix
+    (`not Path(packaged).is_file() and Path(system).is_file()`) does NOT satisfy this statement: for `./cubic` naming an
+    existing file the packaged probe is true (`constraints/./cubic` is `constraints/cubic`) and the user's file was ignored. -/
 theorem resolve_is_source (env : Env) (sys : String) :
     ∃ useUser, evalBool (lookupEnv (α := α) env sys) Generated.fillLookupTest = some useUser ∧
       resolve env sys =
@@ -241,12 +286,36 @@ theorem resolve_is_source (env : Env) (sys : String) :
   unfold Generated.fillLookupTest
   simp only [evalBool, lookupEnv, bind, Option.bind, pure, Option.map]
   unfold resolve
-  cases hp : packaged sys with
-  | ok rows => exact ⟨false, by simp, by simp⟩
-  | error e =>
+  cases hd : hasDirPart sys with
+  | true =>
+    have hp : ∃ e, packaged sys = .error e := by
+      cases hq : packaged sys with
+      | ok rows => rw [packaged_ok_bare hq] at hd; cases hd
+      | error e => exact ⟨e, rfl⟩
+    obtain ⟨e, hp⟩ := hp
     cases hu : env.userFile sys with
-    | none => exact ⟨false, by simp, by simp⟩
-    | some rows => exact ⟨true, by simp, by simp⟩
+    | none => exact ⟨false, by simp, by simp [hp]⟩
+    | some rows => exact ⟨true, by simp, by simp [hp]⟩
+  | false =>
+    cases hp : packaged sys with
+    | ok rows => exact ⟨false, by simp [packagedProbe, hd, hp, okB], by simp⟩
+    | error e =>
+      cases hu : env.userFile sys with
+      | none => exact ⟨false, by simp, by simp⟩
+      | some rows => exact ⟨true, by simp [packagedProbe, hd, hp, okB], by simp⟩
+
+/-- **a string WITH a directory part that names an existing file is that file, whatever its base name** -/
+theorem dir_path_is_used (env : Env) (sys : String) (rows : Rows) (hd : hasDirPart sys = true)
+    (h : env.userFile sys = some rows) : resolve env sys = .ok rows := by
+  cases hq : packaged sys with
+  | ok r => rw [packaged_ok_bare hq] at hd; cases hd
+  | error e => exact resolve_user_file env sys rows e hq h
+
+/-- … in particular `./cubic`, `sub/cubic`, `/abs/cubic`, although `cubic` is packaged and the collapsed packaged path exists -/
+theorem dot_name_examples :
+    hasDirPart "./cubic" = true ∧ hasDirPart "sub/cubic" = true ∧ hasDirPart "/abs/cubic" = true ∧
+    hasDirPart "cubic" = false ∧ normRel "./cubic" = "cubic" ∧ normRel "./sub/../cubic" = "sub/../cubic" ∧
+    okB (packaged (normRel "./cubic")) = true ∧ okB (packaged "./cubic") = false := by decide +kernel
 
 /-! ### the residuals -/
 
